@@ -3,8 +3,9 @@
 Families: Sym(3), Sym(4) (all elements), Sym(6) (alphabet; the only symmetric group with degree > m at m = 5),
 QuadraticResidues(7 / 11 / 23), SchnorrGroup(23,11) and (47,23) (all elements), ClassGroup(-23 / -47 / -71) (all
 forms), the built-in curves Ed25519 (affine / projective / extended), Ed448, secp256k1, BN256, BN256_twist
-(projective; the only oblivious Weierstrass system) on the alphabet {O, G, -G, 2G, -2G, 3G} (2G, 3G in the
-non-normalised representation the plain arithmetic produces), and kummer1271 (Costello-Lauter) on generic divisors.
+(projective; the only oblivious Weierstrass system) on the alphabet {O, G, -G, 2G, -2G, 3G, N(2G)} (2G, 3G in the
+non-normalised representation the plain arithmetic produces, N(2G) the same point normalised: equality must not
+depend on the representation), and kummer1271 (Costello-Lauter) on generic divisors (thorough tier).
 
 Operations, each on secure elements obtained by conversion secgrp(plain) and by mpc.input: a @ b (secure/secure,
 secure/public, public/secure, same object), ~a, a == b, a != b, if_else(c, a, b) for a secret bit c, the additive /
@@ -48,7 +49,7 @@ MANIFEST = dict(
     level='exploration',
     technique='bounded-exhaustive enumeration of group elements, exponents and protocol masks on the real runtime (1 party synchronous '
               'and m parties in the virtual world) against plain finite-group arithmetic',
-    text='All element pairs of Sym(3), Sym(4), QR(7/11/23), Schnorr (23,11)/(47,23), Cl(-23/-47/-71) and the alphabet {O,+-G,+-2G,3G} of '
+    text='All element pairs of Sym(3), Sym(4), QR(7/11/23), Schnorr (23,11)/(47,23), Cl(-23/-47/-71) and the alphabet {O,+-G,+-2G,3G,N(2G)} of '
          'Ed25519 (3 coordinate systems), Ed448, secp256k1, BN256, BN256_twist through @ (all operand kinds), ~, ==, !=, if_else, +,-,*,/ '
          'spellings, repeat with public exponents {-2..3, ord-1, ord} and with secret exponents (SecFld(order), secure integers) for public '
          'and secret bases, repeat_public; inputs by conversion and by mpc.input; single party with scripted masks, then (3,1) and (5,2) '
